@@ -26,13 +26,19 @@ func Run(c *lib.Ctx) {
 		"user call-outs (initialisers, store hooks, foreign exit hooks) terminate and do not call back into the same Local",
 		"the verif yield hook of pkg/process is called exactly at the five documented sites and nowhere under a lock",
 		"goroutine identity in the harness is read from runtime.Stack's header line",
+		"agent (C05.agent_forgets_exited): the events fed to Uniflow.AgentProc are the harness tap's log – `accept p` from an open hook installed before Agent.Load, `hook p` from an exit hook registered before the agent's (runs right after it), `inb`/`outb` from packet hooks running just before the agent's under the same endpoint lock, `term p` before Process.Exit; only the key sets of Agent.processes / Agent.frames are compared (at rest they do not depend on the interleaving of different endpoints)",
+		"tracer (C05.tracer_no_residue): the node loops are ASSUMED to make these calls at process exit – every forward loop has left its last iteration (each derived packet passed to Tracer.Write) and Tracer.Drop(w) has run for every writer w of the process after the last accepted Write on it (forward loop end: Drop(outWriter), Drop(errWriter); backward loop end: Drop(outWriter)); Uniflow.Node has no loop-end steps, the harness observes the outcome (all seven tracer maps empty after every flight)",
+		"pumps (C05.pumps_match_endpoints / no_pump_after_exit): one pump goroutine per NewReader / NewWriter, ending when the endpoint is closed; compared with the goroutine profile (frames pkg/packet.NewReader.func1 / NewWriter.func1) at quiescence",
 	}
 	c.Trusted = []string{"harness thread controller (one released goroutine at a time; blocked-on-lazy predicted by pointer identity of the *lazy)"}
 
 	c.Extra["levels"] = map[string]string{
 		"process.Local (no residue, no deadlock, lazy once)": "proof (Uniflow.Local, all schedules) + step-controlled correspondence + free-running oracle",
 		"port maps (no residue, endpoints closed, no deadlock)": "proof (Uniflow.PortMaps, all schedules) + step-controlled correspondence + free-running oracle",
-		"tracer maps, debug agent, goroutine set":               "observation on real workflows after a settle loop (partial: not proved here; tracer emptiness is C02's theorem + C03's teardown)",
+		"pump goroutines of endpoints":                          "proof (Uniflow.PortMaps.pumps: = endpoints created and not closed; 0 after exit) + goroutine profile compared with the model at quiescence",
+		"debug agent (processes / frames)":                      "proof (Uniflow.AgentProc, all histories incl. packet hooks after the exit hook) + key sets compared with the model fed the harness's hook log on real workflows",
+		"tracer maps":                                           "proof (C05.tracer_no_residue over C02's protocol, relative to the stated loop-end calls of the nodes) + observed empty after every real flight",
+		"goroutine set (no uniflow/pkg goroutine left)":         "observation on real workflows after a settle loop (runtime.Stack); not provable in this framework",
 	}
 	var fails []lib.OracleFail
 	rng := lib.NewRNG(c.Seed)
@@ -87,7 +93,7 @@ func Run(c *lib.Ctx) {
 
 	// ---- 3. ports, 4. workflows
 	ms = append(ms, runPorts(c, rng, &fails)...)
-	runFlows(c, rng, &fails)
+	ms = append(ms, runFlows(c, rng, &fails)...)
 
 	c.Conclude("Uniflow.Local / Uniflow.PortMaps vs pkg/process.Local, pkg/port", ms, fails)
 }
